@@ -263,6 +263,56 @@ def engine_rules(ck, prog, summ):
                         ck.report("C09:engine-vararg-written-by:%s:%s" % (f.name, name), "E-no-store-through-variadic-pointer", f.loc(i),
                                   "%s passes a variadic pointer to %s, which may write through argument %d" % (f.name, name, k))
         stats[f.name] = len(ptrs)
+    # E3: the formatter hands (part of) the caller's format to libc's own formatter for a few conversions (%a, %Lf ...).  That is only
+    # sound for the directive it has parsed itself: a pointer into the caller's format may reach a libc formatted sink only on the edge
+    # where the character after the directive is the terminating NUL (otherwise libc would go on parsing the rest of the caller's format).
+    fpar = eng.pnames.get("format")
+    n_e3 = 0
+    if fpar is not None:
+        der = derive(eng, {fpar["id"]: "fmt"})
+        # loads of format characters and the branches that test them against zero
+        zero_edges = []      # (block D, successor S taken when the character is 0)
+        for i in eng.insts():
+            if i["op"] == "br" and "cond" in i and i["cond"].get("k") == "v":
+                c = eng.defs.get(i["cond"]["id"])
+                while c is not None and c["op"] in ("zext", "trunc") and c["ops"][0].get("k") == "v":
+                    c = eng.defs.get(c["ops"][0]["id"])
+                if c is None or c["op"] != "icmp" or c["pred"] not in ("eq", "ne"):
+                    continue
+                a, b = c["ops"]
+                if not (b.get("k") == "c" and b["v"] == 0):
+                    a, b = b, a
+                if not (b.get("k") == "c" and b["v"] == 0) or a.get("k") != "v":
+                    continue
+                ld = eng.defs.get(a["id"])
+                while ld is not None and ld["op"] in ("sext", "zext") and ld["ops"][0].get("k") == "v":
+                    ld = eng.defs.get(ld["ops"][0]["id"])
+                if ld is None or ld["op"] != "load" or not labels_of(ld["ops"][0], der, None):
+                    continue
+                zero_edges.append((i["_bb"], i["t"] if c["pred"] == "eq" else i["f"]))
+        for c in eng.calls():
+            name = c.get("callee")
+            if not name or name.startswith("llvm."):
+                continue
+            for k, a in enumerate(c.get("args", ())):
+                if not labels_of(a, der, None):
+                    continue
+                callee = prog.resolve(eng, name)
+                reaches = False
+                if callee is not None and callee.name != ENGINE and k < len(callee.j["params"]):
+                    reaches = any(x[0] == "libc" for x in fmt_flow(prog, callee, k))
+                elif callee is None:
+                    eff = external_effect(name)
+                    reaches = bool(eff and eff.get("fmt") == k and "gram" in eff)
+                if not reaches:
+                    continue
+                n_e3 += 1
+                ok = any(eng.dominates(S, c["_bb"]) and eng.preds[S] == [D] for (D, S) in zero_edges)
+                if not ok:
+                    ck.report("C09:engine-uncut-format-to-libc:%s" % name, "E-format-tail-to-libc", eng.loc(c),
+                              "%s passes a pointer into the caller's format to %s, which hands it to libc's formatter, on a path where the directive is not known to be the "
+                              "end of the format: libc would parse (and execute %%n in) the rest of the caller's format" % (ENGINE, name))
+    stats["_format_pointers_reaching_libc"] = n_e3
     # the specifier switch: 'n' must lead only to a negative return behind a handler call
     sw = [i for i in eng.insts() if i["op"] == "switch" and len(i["cases"]) >= 8 and {ord("s"), ord("d"), ord("c")} <= {c["v"] for c in i["cases"]}]
     if len(sw) != 1:
